@@ -306,7 +306,11 @@ impl Polynomial<Cmplx> {
                     x = Cmplx::new( x.real, 0.0 );
                 }
                 poly_roots[j] = x;
-                if x.abs() <= 1.0 {
+                // "small" and "large" are relative to the other roots of the polynomial being deflated: their
+                // geometric mean |a_0 / a_m|^(1/m), not 1 ( ( x - 1.25 )( x - 64 )( x - 64.004 )( x - 65 ): 64 is the
+                // SMALLEST root left after 1.25, and dividing it out backwards turned the close pair into a conjugate pair )
+                let mean = ( ad[0] / ad[ j + 1 ] ).abs().powf( 1.0 / ( j + 1 ) as f64 );
+                if x.abs() <= mean {
                     // forward deflation (from the leading coefficient): stable for the roots of small modulus
                     b = ad[ j + 1 ];
                     for jj in (0..j+1).rev() {
